@@ -21,6 +21,9 @@ symbol), with everything a static evaluator with constant folding can honestly r
   * an index is the set of rows / columns it selects in an array of known shape (`Interp.shape_of`, supplied by the rule): unit-step
     slices become intervals `sel(start, stop)` with the bounds resolved as numpy resolves them, missing axes are completed, a subscript
     of a view is a subscript of the array viewed (section "selections" below); `np.s_[...]`, `slice(...)` objects are the same values;
+  * class-level constants (`THETA = {...}` in a class body, read through the instance, the class or `type(obj)`), `staticmethod` /
+    `classmethod` helpers, `type(self)(...)` / `self.__class__(...)` / `cls(...)` as constructors, attributes set on a result after
+    construction, the walrus operator, and `match` on literal / dotted-name patterns (`|`, capture, wildcard, guards) are evaluated;
   * a library object is named by the dotted path its import resolves to, abbreviated as in `STD_NAMES` (np, la, mf, ...), whatever alias
     the module (or a function-level import) gives it; `super().m(...)` is `Base.m(self, ...)`; `functools.partial`, `functools.reduce`,
     the functions of `operator`, `divmod` are evaluated.
